@@ -389,3 +389,168 @@ Theorem parse_render L r : layout_ok L = true -> fitsb L r = true ->
     /\ sub (units (l_ix L) (render L r)) (c_lo c) (c_hi c) = render_seg r s
     /\ lookup (parse L (render L r)) (c_field c) = conv_value (c_conv c) (render_seg r s).
 Proof. intros H1 H2. apply parse_render_w; [assumption|now apply fitsb_widthb]. Qed.
+
+(* ------------------------------------------------------------------ *)
+(* C01, second half: rendering the re-parsed record gives the same text *)
+
+Lemma conv_value_trim cv t : is_trim_chain cv = true -> conv_value cv t = Some (VS (trim t)).
+Proof.
+  destruct cv as [|fn [|? ?]]; try discriminate. cbn [is_trim_chain]. intros H.
+  apply orb_prop in H as [H|H]; [apply orb_prop in H as [H|H]|]; apply String.eqb_eq in H; subst fn; reflexivity.
+Qed.
+
+Lemma conv_value_num cv t : is_num_chain cv = true -> conv_value cv t = Some (VI (parseNumField t)).
+Proof.
+  destruct cv as [|fn [|? ?]]; try discriminate. cbn [is_num_chain]. intros H.
+  apply String.eqb_eq in H; subst fn; reflexivity.
+Qed.
+
+Lemma is_nil_spec {A} (l : list A) : is_nil l = true -> l = [].
+Proof. destruct l; [reflexivity|discriminate]. Qed.
+
+Lemma in_int64b_eq z : in_int64b z = in_int64 z.
+Proof. reflexivity. Qed.
+
+Ltac generic_case H Hconv :=
+  unfold generic_stable in H; cbn [render_seg] in H; rewrite Hconv in H; apply bytes_eqb_eq in H; exact H.
+
+Lemma field_stable_sound r x f cv v :
+  seg_widthb r x = true -> seg_intb r (cs_seg x) = true ->
+  simple_field (cs_seg x) = Some f ->
+  field_stable (cs_seg x) cv r = true ->
+  conv_value cv (render_seg r (cs_seg x)) = Some v ->
+  render_seg [(f, v)] (cs_seg x) = render_seg r (cs_seg x).
+Proof.
+  unfold seg_widthb. destruct (cs_seg x) as [bs|g w|g w|g w|g|g|n h|src];
+    cbn [simple_field seg_intb field_stable]; intros Hfit Hint Hf Hst Hconv; try discriminate;
+    injection Hf as ->; cbn [render_seg] in Hconv |- *.
+  - (* SAlpha *)
+    destruct (is_nil cv) eqn:E1.
+    { apply is_nil_spec in E1. subst cv. injection Hconv as <-. rewrite gets_single. now apply alphaField_idem. }
+    destruct (is_trim_chain cv) eqn:E2; [|generic_case Hst Hconv].
+    rewrite (conv_value_trim cv _ E2) in Hconv. injection Hconv as <-. rewrite gets_single.
+    now apply alphaField_trim_fixed.
+  - (* SNum *)
+    destruct (is_num_chain cv) eqn:E1; [|generic_case Hst Hconv].
+    rewrite (conv_value_num cv _ E1) in Hconv. injection Hconv as <-. rewrite geti_single.
+    apply andb_prop in Hint as [H1 H2]. apply Z.leb_le in H1, H2. now apply numericField_reparse.
+  - (* SStr *)
+    destruct (is_nil cv) eqn:E1.
+    { apply is_nil_spec in E1. subst cv. injection Hconv as <-. rewrite gets_single. apply stringField_idem. }
+    destruct (is_trim_chain cv) eqn:E2; [|generic_case Hst Hconv].
+    rewrite (conv_value_trim cv _ E2) in Hconv. injection Hconv as <-. rewrite gets_single.
+    now apply stringField_trim_fixed.
+  - (* SRaw *)
+    apply andb_prop in Hfit as [Hwf _].
+    destruct (is_nil cv) eqn:E1.
+    { apply is_nil_spec in E1. subst cv. injection Hconv as <-. now rewrite gets_single. }
+    destruct (is_trim_chain cv) eqn:E2; [|generic_case Hst Hconv].
+    rewrite (conv_value_trim cv _ E2) in Hconv. injection Hconv as <-. rewrite gets_single.
+    now apply trim_id.
+  - (* SItoa *)
+    destruct (is_num_chain cv) eqn:E1; [|generic_case Hst Hconv].
+    rewrite (conv_value_num cv _ E1) in Hconv. injection Hconv as <-. rewrite geti_single.
+    rewrite in_int64b_eq in Hst. now apply itoa_reparse.
+Qed.
+
+Lemma seg_field_simple s f : simple_field s = Some f -> seg_field s = Some f.
+Proof. destruct s; cbn [simple_field seg_field]; try discriminate; auto. Qed.
+
+Lemma seg_stableb_simple L r s f : simple_field s = Some f ->
+  seg_stableb L r s =
+  match find_key (l_cuts L) f with
+  | None => true
+  | Some c => match c_const c with
+              | Some bs => bytes_eqb (render_seg [(f, VS bs)] s) (render_seg r s)
+              | None => field_stable s (c_conv c) r
+              end
+  end.
+Proof. destruct s; cbn [simple_field]; intros H; try discriminate; injection H as ->; reflexivity. Qed.
+
+Lemma lookup_overlay L r f : layout_ok L = true -> widthb L r = true ->
+  lookup (overlay (parse L (render L r)) r) f =
+  match assigned (units (l_ix L) (render L r)) (l_cuts L) f with Some v => Some v | None => lookup r f end.
+Proof.
+  intros Hok Hw. destruct (layout_ok_facts L Hok) as [cs F].
+  unfold overlay, parse. rewrite (render_width_w L r Hok Hw), Nat.eqb_refl, lookup_app.
+  now destruct (lookup_parse (units (l_ix L) (render L r)) (l_cuts L) f (ok_cut_keys _ _ F)) as [_ ->].
+Qed.
+
+Lemma simple_seg_stable L r s f :
+  layout_ok L = true -> fitsb L r = true -> In s (l_segs L) -> simple_field s = Some f ->
+  seg_stableb L r s = true ->
+  render_seg (overlay (parse L (render L r)) r) s = render_seg r s.
+Proof.
+  intros Hok Hfit Hs Hsf Hst. pose proof (fitsb_widthb L r Hfit) as Hw.
+  destruct (layout_ok_facts L Hok) as [cs F].
+  rewrite (seg_stableb_simple L r s f Hsf) in Hst.
+  pose proof (lookup_overlay L r f Hok Hw) as Hl. unfold assigned in Hl.
+  destruct (find_key (l_cuts L) f) as [c|] eqn:Ef; [|now apply (render_seg_lookup s f)].
+  apply find_key_in in Ef as [Hc Hk]. unfold cut_key in Hk. unfold parse_cut in Hl.
+  destruct (c_const c) as [bs|] eqn:Econst.
+  - injection Hk as Hk. rewrite Hk, lookup_single in Hl. apply bytes_eqb_eq in Hst. rewrite <- Hst.
+    apply (render_seg_lookup s f); [assumption|]. now rewrite Hl, lookup_single.
+  - destruct (String.eqb (c_field c) "") eqn:Ee; [discriminate|]. injection Hk as Hk.
+    apply String.eqb_neq in Ee.
+    destruct (ok_aligned _ _ F c Hc Econst Ee) as (x & Hx & _ & Hlo & Hhi & Hxf).
+    assert (Exs : cs_seg x = s).
+    { apply (nodup_flat_map_inj seg_keys (l_segs L) (ok_seg_keys _ _ F) (cs_seg x) s f); auto.
+      - rewrite <- (ok_segs _ _ F). now apply in_map.
+      - unfold seg_keys. rewrite Hxf, Hk. now left.
+      - unfold seg_keys. rewrite (seg_field_simple s f Hsf). now left. }
+    pose proof (sub_render L cs r F Hw x Hx) as Hsub. rewrite Hhi, Hlo, Exs in Hsub.
+    rewrite Hsub, Hk in Hl.
+    destruct (conv_value (c_conv c) (render_seg r s)) as [v|] eqn:Econv.
+    + rewrite lookup_single in Hl.
+      transitivity (render_seg [(f, v)] s).
+      * apply (render_seg_lookup s f); [assumption|]. now rewrite Hl, lookup_single.
+      * subst s. apply (field_stable_sound r x f (c_conv c) v); auto.
+        -- unfold widthb in Hw. rewrite (ok_cols _ _ F), forallb_forall in Hw. now apply Hw.
+        -- unfold fitsb in Hfit. apply andb_prop in Hfit as [_ Hi]. rewrite forallb_forall in Hi. now apply Hi.
+    + cbn [lookup] in Hl. now apply (render_seg_lookup s f).
+Qed.
+
+Theorem reparse_fixed L r :
+  layout_ok L = true -> fitsb L r = true -> stableb L r = true ->
+  render L (overlay (parse L (render L r)) r) = render L r.
+Proof.
+  intros Hok Hfit Hst. unfold render. f_equal. apply map_ext_in. intros s Hs.
+  unfold stableb in Hst. rewrite forallb_forall in Hst. specialize (Hst s Hs).
+  destruct (simple_field s) as [f|] eqn:Esf; [now apply (simple_seg_stable L r s f)|].
+  destruct s as [bs|g w|g w|g w|g|g|n h|src]; cbn [simple_field] in Esf; try discriminate Esf;
+    cbn [seg_stableb] in Hst.
+  - reflexivity.
+  - now apply bytes_eqb_eq in Hst.
+  - discriminate Hst.
+Qed.
+
+(* the parsed record itself: every field Parse assigns from columns holds the
+   converted rendered text, every constant cut its constant, and nothing else
+   is assigned *)
+Theorem parse_render_fields L r f : layout_ok L = true -> fitsb L r = true ->
+  lookup (parse L (render L r)) f =
+  match find_key (l_cuts L) f with
+  | None => None
+  | Some c => match c_const c with
+              | Some bs => Some (VS bs)
+              | None => match aligned_seg L c with
+                        | Some s => conv_value (c_conv c) (render_seg r s)
+                        | None => None
+                        end
+              end
+  end.
+Proof.
+  intros Hok Hfit. pose proof (fitsb_widthb L r Hfit) as Hw. destruct (layout_ok_facts L Hok) as [cs F].
+  destruct (find_key (l_cuts L) f) as [c|] eqn:Ef.
+  - pose proof Ef as Ef'. apply find_key_in in Ef' as [Hc Hk]. unfold cut_key in Hk.
+    destruct (c_const c) as [bs|] eqn:Econst.
+    + injection Hk as Hk. unfold parse. rewrite (render_width_w L r Hok Hw), Nat.eqb_refl.
+      destruct (lookup_parse (units (l_ix L) (render L r)) (l_cuts L) f (ok_cut_keys _ _ F)) as [-> _].
+      unfold assigned. rewrite Ef. unfold parse_cut. rewrite Econst, Hk. apply lookup_single.
+    + destruct (String.eqb (c_field c) "") eqn:Ee; [discriminate|]. injection Hk as Hk.
+      apply String.eqb_neq in Ee.
+      destruct (parse_render_w L r Hok Hw c Hc Econst Ee) as (s & -> & _ & _ & _ & H). now rewrite <- Hk.
+  - unfold parse. rewrite (render_width_w L r Hok Hw), Nat.eqb_refl.
+    destruct (lookup_parse (units (l_ix L) (render L r)) (l_cuts L) f (ok_cut_keys _ _ F)) as [-> _].
+    unfold assigned. now rewrite Ef.
+Qed.
